@@ -1045,6 +1045,19 @@ theorem C08_private_kw_refused_witness :
     call W₁ sPrivKw { noDataLoss := true } [] [(1000, 7)] = .perr ∧
     call W₁ sPrivKw { addition := some false } [] [(1000, 7)] = .perr := by decide
 
+/-- `def f(a, **kw)`: `f(1, a=2)` — Python refuses the call ("got multiple values for argument 'a'"), so does the
+field-first strategy (the duplicate lands in `**kw` and the raw call raises the same TypeError), but data-first skips
+the keyword of an already parsed field and runs the body with `a = 1`; the specification is silent (Python does not
+bind), the strategies differ.  Without `**kwargs` both strategies ignore the duplicate. -/
+def sDup : Sig Nat Nat Nat := { pos := [{ name := 1 }], vk := some (8, none) }
+
+theorem C08_dup_positional_keyword_witness :
+    Spec.expected W₁ sDup [1] [(1, 2)] = none ∧
+    call W₁ sDup { dfs := some false } [1] [(1, 2)] = .tyerr ∧
+    call W₁ sDup { dfs := some true } [1] [(1, 2)] = .body ⟨[1], [], [], []⟩ ∧
+    call W₁ { sDup with vk := none } { dfs := some false } [1] [(1, 2)] = .body ⟨[1], [], [], []⟩ ∧
+    call W₁ { sDup with vk := none } { dfs := some true } [1] [(1, 2)] = .body ⟨[1], [], [], []⟩ := by decide
+
 /-- `def f(_x: int)`: the property wants `f(7)` converted (`107` in this world); the body gets the raw `7` -/
 def sPrivAnn : Sig Nat Nat Nat := { pos := [{ name := 1000, ann := some 0 }] }
 
